@@ -4,6 +4,7 @@ import PQ.Model.Spec
 import PQ.Model.SpecWriter
 import PQ.Model.Snappy
 import PQ.Model.Introspect
+import PQ.Model.ParseStruct
 /-!
 # Line-protocol text ↔ model values (driver glue; not part of any theorem)
 -/
@@ -302,6 +303,38 @@ def showWalk (f : SpecFile) : String :=
         rgs (pos + ((g.chunks.flatMap (·.pages)).map fun p => p.headerLen + p.compressedLen).sum) gs
   let l := rgs 4 f.rowGroups
   if l.isEmpty then "-" else ",".intercalate l
+
+/-! declarations text: types `;`-separated `Name{f,f}`; field `names:type:taghex`; names joined by `+` -/
+partial def parseTExpr (s : String) : Parse.TExpr :=
+  if s.startsWith "*" then .star (parseTExpr (s.drop 1).toString)
+  else if s.startsWith "[]" then .arr (parseTExpr (s.drop 2).toString)
+  else if s.startsWith "#" then .arr (parseTExpr (s.drop 1).toString)
+  else if s.startsWith "chan>" then .chanT (parseTExpr (s.drop 5).toString)
+  else if s.startsWith "map<" then
+    match ((s.drop 4).toString.dropEnd 1).toString.splitOn "|" with
+    | [k, v] => .mapT (parseTExpr k) (parseTExpr v)
+    | _ => .other
+  else if s.startsWith "func(" then
+    let inner := ((s.drop 5).toString.dropEnd 1).toString
+    .funcT (if inner = "" then [] else (inner.splitOn "|").map parseTExpr)
+  else if s = "?" then .other
+  else match s.splitOn "." with
+    | [a, b] => .sel a b
+    | _ => .ident s
+
+def parseDecls (s : String) : List Parse.TypeDecl :=
+  (s.splitOn ";").filterMap fun t =>
+    match t.splitOn "{" with
+    | [name, rest] =>
+      let body := (rest.dropEnd 1).toString
+      let fs := if body = "" then [] else (body.splitOn ",").filterMap fun f =>
+        match f.splitOn ":" with
+        | [names, ty, tag] =>
+          some ({ names := if names = "" then [] else names.splitOn "+", ty := parseTExpr ty,
+                  tag := if tag = "-" then none else some (String.ofList ((unhex tag).map fun b => Char.ofNat b)) } : Parse.FieldDecl)
+        | _ => none
+      some { name := name, fields := fs }
+    | _ => none
 
 def transpose (n : Nat) (colsRecs : List (List String)) : List String :=
   (List.range n).map fun i => "|".intercalate (colsRecs.map fun rs => rs.getD i "?")
